@@ -193,7 +193,8 @@ def VolumeMatrix(
     if transform_matrix:
         # matrix manipulation
         medium = np.matmul(matrixA, matrixA.T)
-        medium = np.linalg.inv(medium)
+        # A A^T is singular (the cell volumes sum to the box volume): use the pseudo-inverse
+        medium = np.linalg.pinv(medium)
         medium = np.matmul(matrixA.T, medium)
         matrixA_transformation = np.matmul(medium, matrixA)
         if outputfile:
